@@ -13,6 +13,9 @@
            The https upstream's `connTracker` (track / close) is the same protocol without an idle set;
            net/http's own pooling is abstracted as "one connection per concurrent exchange".
     pipe   PipelineTransport over connpool.Pool: one shared dialing call, connections shared by the exchanges;
+           every query takes one of the 65536 wire ids of its connection (`nextQid`); a connection without ids left
+           is not picked any more (`Status().Available`) but stays in the pool until it is closed — the pool forgets,
+           without closing, only what reports `Status().Closed` — and closes itself when its last query is done;
            Pool.Close marks closed, cancels the dialing calls (their waiters fail at once), closes busy and idle
            connections; `dialingCall.dial` closes a connection that arrives after the pool was closed.
     quic   QuicTransport: one connection `t.c`, one shared `dialingCall`; Close marks closed, cancels, closes
@@ -51,6 +54,9 @@ structure Conn where
   tracked : Bool
   /-- reuse: in `idleConns` -/
   idle : Bool
+  /-- pipe: wire ids (`nextQid`) the connection has left; a pipelined connection that has none left is never
+      picked again (`Status().Available`) and closes itself when its last query is done (`deleteQueueC`) -/
+  left : Nat
   deriving DecidableEq, Repr
 
 structure Dial where
@@ -88,6 +94,8 @@ inductive Op where
   /-- udp upstream only: the server answers with TC=1, the exchange goes on over the TCP leg
       (`udpWithFallback`); the caller still waits, so the close protocol's state is unchanged. -/
   | trunc (e : Nat)
+  /-- pipe, manual scripts: answered exchanges use up the wire ids of the live connection until `k` are left -/
+  | burn (k : Nat)
   deriving DecidableEq, Repr
 
 def St.hasEx (s : St) (e : Nat) : Bool := s.exs.any (·.id == e)
@@ -96,7 +104,10 @@ def St.blocked (s : St) : List Nat := (s.exs.filter (·.res.isNone)).map (·.id)
 
 /-- a connection an exchange may be put on: reuse needs an open idle one, pipe/quic any open tracked one -/
 def usable (k : Kind) (c : Conn) : Bool :=
-  c.isOpen && c.tracked && (k != .reuse || c.idle)
+  c.isOpen && c.tracked && (k != .reuse || c.idle) && (k != .pipe || decide (0 < c.left))
+
+/-- a pipelined connection carries 16-bit wire ids and never reuses one (`nextQid` 0..65535) -/
+def idSpace : Nat := 65536
 
 /-- fail the waiters of dial `d` (callers still blocked get an error; every goroutine leaves the dial) -/
 def failWaiters (d : Nat) (exs : List Ex) : List Ex :=
@@ -108,7 +119,7 @@ def startOp (s : St) (e : Nat) (stub : Bool) : St :=
   else
     match s.conns.find? (usable s.kind) with
     | some c =>
-      { s with conns := s.conns.map (fun x => if x.id = c.id then { x with idle := false } else x)
+      { s with conns := s.conns.map (fun x => if x.id = c.id then { x with idle := false, left := x.left - 1 } else x)
                exs := s.exs ++ [⟨e, none, .conn c.id⟩] }
     | none =>
       match (if s.kind = .reuse then none else s.dials.head?) with
@@ -122,12 +133,13 @@ def dialOkOp (s : St) (d : Nat) : St :=
     let dials := s.dials.filter (·.id != d)
     if s.closed then
       -- late dial: the new connection is closed at once and never tracked; the waiters fail
-      { s with dials := dials, conns := s.conns ++ [⟨d, false, false, false⟩], exs := failWaiters d s.exs }
+      { s with dials := dials, conns := s.conns ++ [⟨d, false, false, false, 0⟩], exs := failWaiters d s.exs }
     else
       -- reuse: a caller that gave up leaves the connection to the pool (idle)
       let abandoned := s.kind = .reuse && s.exs.any (fun x => x.loc = .dial d && x.res.isSome)
       { s with dials := dials
-               conns := s.conns ++ [⟨d, true, true, abandoned⟩]
+               conns := s.conns ++ [⟨d, true, true, abandoned,
+                          idSpace - (s.exs.filter (fun x => x.loc = .dial d && x.res.isNone)).length⟩]
                exs := s.exs.map fun x =>
                  if x.loc = .dial d then
                    (if x.res.isSome then { x with loc := .none } else { x with loc := .conn d })
@@ -180,12 +192,33 @@ def closeOp (s : St) : St :=
              exs := exs
              atClose := some ((exs.filter (·.res.isNone)).map (·.id)) }
 
+/-- pipe: the answered exchanges of a `burn` take wire ids of the usable connection until `k` are left
+    (only while no caller is blocked and no dial is pending) -/
+def burnOp (s : St) (k : Nat) : St :=
+  if !s.blocked.isEmpty || !s.dials.isEmpty || s.kind != .pipe then s
+  else match s.conns.find? (usable .pipe) with
+    | some c =>
+      if k ≤ c.left then
+        { s with conns := s.conns.map (fun x => if x.id = c.id then { x with left := k } else x) }
+      else s
+    | none => s
+
+/-- pipe: a connection without wire ids closes itself as soon as no query is in flight on it
+    (`deleteQueueC`: `eol := c.nextQid > 65535 && len(c.queue) == 0`) -/
+def sweep (s : St) : St :=
+  if s.kind = .pipe then
+    { s with conns := s.conns.map fun c =>
+        if c.left = 0 && !(s.exs.any (fun x => x.res.isNone && x.loc == .conn c.id))
+        then { c with isOpen := false } else c }
+  else s
+
 def step (s : St) : Op → St
   | .start e b => startOp s e b
   | .dialOk d => dialOkOp s d
   | .dialErr d => dialErrOp s d
-  | .reply e => replyOp s e
-  | .cancel e => cancelOp s e
+  | .reply e => sweep (replyOp s e)
+  | .cancel e => sweep (cancelOp s e)
+  | .burn k => sweep (burnOp s k)
   | .timer => timerOp s
   | .close => closeOp s
   | .trunc _ => s
@@ -203,6 +236,7 @@ def expand (auto : Bool) : Op → List Op
   | .dialOk d => if auto then [] else [.dialOk d]
   | .dialErr d => if auto then [] else [.dialErr d]
   | .timer => if auto then [] else [.timer]
+  | .burn k => if auto then [] else [.burn k]
   | op => [op]
 
 /-- in auto mode the harness closes the upstream once more at the end of every script -/
@@ -276,6 +310,7 @@ def obsOf (ncloses : Nat) (s : St) : Obs :=
 /-! ### line protocol
   case: `k=<reuse|pipe|quic> auto=<0|1> ops=<op>,...` (further tokens are for the harness);
         op: s<e> S<e> (stubborn dialer) d<e> f<e> r<e> c<e> t C T<e> (truncated UDP reply, udp upstream)
+            B<k> (pipe: answered exchanges until the connection has k wire ids left)
   out : `res=<e>:<r>,.. cl=<n|hang> open=<n> atc=<ids|-> dials=<n|->` -/
 
 def kindOfStr : String → Option Kind
@@ -291,7 +326,7 @@ def opOfStr (t : String) : Option Op :=
       match c with
       | 's' => some (.start n false) | 'S' => some (.start n true)
       | 'd' => some (.dialOk n) | 'f' => some (.dialErr n)
-      | 'r' => some (.reply n) | 'c' => some (.cancel n) | 'T' => some (.trunc n)
+      | 'r' => some (.reply n) | 'c' => some (.cancel n) | 'T' => some (.trunc n) | 'B' => some (.burn n)
       | _ => none
     | none => none
   | [] => none
@@ -334,7 +369,7 @@ def runCase (case impl : String) : String × String :=
   | some k, some auto, some ops =>
     let s := runScript k auto ops
     let ncl := ((fullOps auto ops).filter (· == .close)).length
-    let m := strOfObs (obsOf ncl s) (if auto then none else some s.ndials)
+    let m := strOfObs (obsOf ncl s) (if auto || (kvGet toks "stall") == some "1" then none else some s.ndials)
     let v := match obsOfStr impl with
       | some o => if spec auto ops o then "ok" else "viol"
       | none => if impl == "panic" then "viol:panic" else "unparsed"
